@@ -656,6 +656,17 @@ func c05(p *core.Prog, res *core.Result) {
 	res.Rule("R4", "auth interceptors installed on grpc.NewServer and on every direct client of the real server; no HandlerServer registration", 7)
 	res.Rule("R5", "generated direct-client shims route through the interceptor with the method's FullMethod and stream flags", 25)
 	res.Rule("SELF", "rule self-test on tiny positive/negative interceptors", 4)
+	res.Rule("R6", "look-up keys built from several request strings are unambiguous", 0)
+	n6 := 0
+	for _, fi := range p.AllDecls() {
+		if rel := core.RelPkg(fi.Pkg.PkgPath); fi.Decl.Body == nil || rel != "accounts" || strings.HasSuffix(p.Fset.Position(fi.Decl.Pos()).Filename, "_test.go") {
+			continue
+		}
+		n6 += ambiguousKeys(p, res, fi, "R6")
+	}
+	if n6 == 0 {
+		res.OKTrivial("R6", "accounts|no composite key", "-", "no map or sync.Map in the access-control code is keyed by a concatenation of request strings")
+	}
 
 	c := &c05ctx{p: p, accounts: "accounts", filterOK: map[types.Object]bool{}, graphExtractors: map[*types.Func]bool{}}
 	methods := grpcServices(p, "gripql")
@@ -1172,4 +1183,115 @@ func c05selftest(p *core.Prog, res *core.Result) {
 			res.OKTrivial("SELF", "selftest|"+full, "-", "rule R2 gives "+string(got)+" as expected")
 		}
 	}
+	for name, want := range map[string]core.Status{"OkKeySeparated": core.Discharged, "BadKeyConcatenated": core.Violated} {
+		kf := p.Func(rel, name)
+		if kf == nil {
+			res.Fail("self-test function %s missing", name)
+			continue
+		}
+		tmp := core.NewResult("C05", "self")
+		ambiguousKeys(p, tmp, kf, "R6")
+		got := core.Unresolved
+		for _, o := range tmp.Obls {
+			if o.Status == core.Violated {
+				got = core.Violated
+			} else if got != core.Violated {
+				got = o.Status
+			}
+		}
+		if got != want {
+			res.Fail("self-test %s: rule R6 gave %s, expected %s", name, got, want)
+		} else {
+			res.OKTrivial("SELF", "selftest|"+name, "-", "rule R6 gives "+string(got)+" as expected")
+		}
+	}
+}
+
+
+// ambiguousKeys (R6): a map / sync.Map key that concatenates two or more
+// run-time strings with nothing constant between them is the same for different
+// tuples ("ab"+"c" = "a"+"bc"); a decision cached or looked up under it is
+// shared between different (user, graph, operation) triples.
+func ambiguousKeys(p *core.Prog, res *core.Result, fi *core.FuncInfo, rule string) int {
+	info := fi.Pkg.TypesInfo
+	fkey := core.FuncKey(fi.Obj)
+	defs := localDefs(info, fi.Decl.Body)
+	n := 0
+	seen := map[string]bool{}
+	check := func(k ast.Expr, at token.Pos, what string) {
+		e := ast.Unparen(k)
+		if id, ok := e.(*ast.Ident); ok {
+			if d, ok := defs[info.Uses[id]]; ok && d != nil {
+				e = ast.Unparen(d)
+			}
+		}
+		if be, ok := e.(*ast.BinaryExpr); !ok || be.Op != token.ADD {
+			return
+		}
+		if t := info.TypeOf(e); t == nil || !types.Identical(t.Underlying(), types.Typ[types.String]) {
+			return
+		}
+		var ops []ast.Expr
+		var flat func(x ast.Expr)
+		flat = func(x ast.Expr) {
+			x = ast.Unparen(x)
+			if b, ok := x.(*ast.BinaryExpr); ok && b.Op == token.ADD {
+				flat(b.X)
+				flat(b.Y)
+				return
+			}
+			ops = append(ops, x)
+		}
+		flat(e)
+		dyn, adjacent := 0, false
+		prevDyn := false
+		for _, o := range ops {
+			tv, isConst := info.Types[o]
+			if isConst && tv.Value != nil {
+				if constant.StringVal(tv.Value) != "" {
+					prevDyn = false
+				}
+				continue
+			}
+			dyn++
+			if prevDyn {
+				adjacent = true
+			}
+			prevDyn = true
+		}
+		if dyn < 2 {
+			return
+		}
+		key := fmt.Sprintf("%s|key %s", fkey, types.ExprString(e))
+		if seen[key] {
+			return
+		}
+		seen[key] = true
+		n++
+		res.Fn(fkey)
+		if adjacent {
+			res.Bad(rule, key, p.Pos(at), fmt.Sprintf("%s uses %s as a %s key: the run-time parts are joined with nothing between them, so different (user, graph, operation) tuples that concatenate to the same string share one entry — a decision taken for one request is applied to another", fkey, types.ExprString(e), what))
+		} else {
+			res.OK(rule, key, p.Pos(at), "run-time parts are separated by constants")
+		}
+	}
+	ast.Inspect(fi.Decl.Body, func(x ast.Node) bool {
+		switch y := x.(type) {
+		case *ast.IndexExpr:
+			if _, ok := info.TypeOf(y.X).Underlying().(*types.Map); ok {
+				check(y.Index, y.Pos(), "map")
+			}
+		case *ast.CallExpr:
+			if sel, ok := y.Fun.(*ast.SelectorExpr); ok && len(y.Args) >= 1 {
+				switch sel.Sel.Name {
+				case "Load", "Store", "LoadOrStore", "LoadAndDelete", "Delete":
+					if t := info.TypeOf(sel.X); t != nil && strings.HasSuffix(strings.TrimPrefix(t.String(), "*"), "sync.Map") {
+						check(y.Args[0], y.Pos(), "sync.Map")
+					}
+				}
+			}
+		}
+		return true
+	})
+	return n
 }
